@@ -27,7 +27,8 @@ impl Instruction {
                         .replace('"', "\\\"")
                         .replace('\n', "\\n")
                         .replace('\r', "\\r")
-                        .replace('\t', "\\t"),
+                        .replace('\t', "\\t")
+                        .replace('\0', "\\0"),
                 );
                 args.push('\"');
             }
